@@ -216,27 +216,30 @@ func C08_Run(job string) {
 			return m
 		}
 		_ = in
-		v.Concurrently(3, func(k int) {
-			var d big
-			kept[k] = st.Parse(input(k), &d)
-			if len(kept[k]) != 10 {
-				v.Flag()
-			}
-		})
-		for k := 0; k < 3; k++ {
-			if len(kept[k]) != 10 {
+		_ = kept
+		check := func(m z.ZogIssueMap, k int) {
+			if len(m) != 10 {
 				v.Flag()
 			}
 			for i, key := range keys {
 				if i == k {
-					if len(kept[k][key]) != 0 {
+					if len(m[key]) != 0 {
 						v.Flag()
 					}
-				} else if len(kept[k][key]) != 1 || kept[k][key][0].Code != "gt" || kept[k][key][0].Path != key {
+				} else if len(m[key]) != 1 || m[key][0].Code != "gt" || m[key][0].Path != key {
 					v.Flag()
 				}
 			}
 		}
+		v.Concurrently(3, func(k int) {
+			// (both calls in one body: natively a goroutine gets its own pooled objects back)
+			var d1, d2 big
+			first := st.Parse(input(k), &d1)
+			check(first, k)
+			second := st.Parse(input(k+3), &d2)
+			check(second, k+3)
+			check(first, k)
+		})
 		v.Unfreeze()
 	case "collect-orders":
 		// SanitizeMapAndCollect / CollectMap on small issue maps, every iteration order of the map
